@@ -94,8 +94,15 @@ impl ParsedSylviaAttributes {
             if let (Some(sylvia_attr), Ok(attr)) = (sylvia_attr, &attr_content) {
                 result.match_attribute(&sylvia_attr, attr);
             } else if sylvia_attr == Some(SylviaAttribute::Data) {
-                // The `sv::data` attribute can be used without parameters.
-                result.data = Some(DataFieldParams::default());
+                if matches!(attr.meta, syn::Meta::Path(_)) {
+                    // The `sv::data` attribute can be used without parameters.
+                    result.data = Some(DataFieldParams::default());
+                } else {
+                    emit_error!(
+                        attr.span(), "Invalid usage of `sv::data`";
+                        note = "Expected `#[sv::data]` or `#[sv::data(..)]`"
+                    );
+                }
             } else if sylvia_attr == Some(SylviaAttribute::Payload) {
                 emit_error!(
                     attr.span(), "Missing parameters for `sv::payload`";
